@@ -57,17 +57,19 @@ type caseCfg struct {
 	quotas []qspec
 	order  []int // user flow: Limiter chain in this order
 	early  bool  // the flow answers POST requests itself after the limiters admitted them
+	modAt  int   // 0: none; k+1: a request-rewriting processor (TransformAPICall) sits after the first k limiters, on the admitted path
 }
 
 type engine struct {
-	cfg    caseCfg
-	dir    string
-	clk    *clock.MockClock
-	cancel context.CancelFunc
-	stream *streams.Stream
-	rm     *resources.ResourceManagement
-	nGC    int     // GC goroutines alive in this process (all loads of this case)
-	gens   []gcGen // one entry per load of the configuration that started collectors
+	cfg     caseCfg
+	dir     string
+	clk     *clock.MockClock
+	cancel  context.CancelFunc
+	stream  *streams.Stream
+	rm      *resources.ResourceManagement
+	nGC     int     // GC goroutines alive in this process (all loads of this case)
+	rewrote bool    // the last request came back with a ModifyRequestAction
+	gens    []gcGen // one entry per load of the configuration that started collectors
 }
 
 // the collectors one load of the configuration started: they registered their first timer at the load instant and share
@@ -154,7 +156,16 @@ func flowYAML(c caseCfg) string {
 		tail = procRef("isPost", "")
 	}
 	prev := streamRef("start")
+	// a processor that only rewrites the request (sets a header): the transaction goes on to the provider
+	rewrite := func() {
+		fmt.Fprintf(&procs, "  rewrite:\n    processor: TransformAPICall\n    parameters:\n      - key: set\n        value:\n          \"$.request.headers['x-c02-tag']\": \"tagged\"\n")
+		edge(&req, prev, procRef("rewrite", ""))
+		prev = procRef("rewrite", "")
+	}
 	for k, q := range c.order {
+		if c.modAt == k+1 {
+			rewrite()
+		}
 		lim := fmt.Sprintf("lim%d", k)
 		deny := fmt.Sprintf("deny%d", k)
 		fmt.Fprintf(&procs, "  %s:\n    processor: Limiter\n    parameters:\n      - key: quota_id\n        value: %s\n", lim, qname(q))
@@ -163,6 +174,9 @@ func flowYAML(c caseCfg) string {
 		edge(&req, procRef(lim, "above_limit"), procRef(deny, ""))
 		edge(&resp, procRef(deny, ""), streamRef("end"))
 		prev = procRef(lim, "below_limit")
+	}
+	if c.modAt == len(c.order)+1 {
+		rewrite()
 	}
 	if c.early {
 		edge(&req, prev, procRef("isPost", ""))
@@ -240,7 +254,10 @@ func waitGC(want int) {
 	}
 }
 
-func newEngine(c caseCfg) (*engine, error) {
+func newEngine(c caseCfg) (*engine, error) { return newEngineOn(c, false) }
+
+// real: the production clock (RealClock) instead of the mock clock; time then passes by itself and `advance` is not used
+func newEngineOn(c caseCfg, real bool) (*engine, error) {
 	dir, err := os.MkdirTemp("", "verif-c02-")
 	if err != nil {
 		return nil, err
@@ -260,9 +277,13 @@ func newEngine(c caseCfg) (*engine, error) {
 
 	ctx, cancel := context.WithCancel(context.Background())
 	e.cancel = cancel
-	cm := context_manager.Get().WithContext(ctx).SetMockClock()
-	e.clk = cm.GetClock().(*clock.MockClock)
-	e.clk.Set(time.Unix(0, c.t0))
+	if real {
+		context_manager.Get().WithContext(ctx).SetRealClock()
+	} else {
+		cm := context_manager.Get().WithContext(ctx).SetMockClock()
+		e.clk = cm.GetClock().(*clock.MockClock)
+		e.clk.Set(time.Unix(0, c.t0))
+	}
 	if err := e.load(c); err != nil {
 		e.close()
 		return nil, err
@@ -291,7 +312,7 @@ func (e *engine) load(c caseCfg) error {
 	waitGC(e.nGC)
 	if started > 0 {
 		step := c.gcSec * int64(time.Second)
-		e.gens = append(e.gens, gcGen{n: started, next: e.clk.Now().UnixNano() + step, step: step})
+		e.gens = append(e.gens, gcGen{n: started, next: e.now().UnixNano() + step, step: step})
 	}
 	if err != nil {
 		return err
@@ -326,6 +347,13 @@ func (e *engine) close() {
 
 // advance moves the mock clock by d ns; every GC instant on the way is visited exactly (clock set to the
 // due instant, GC goroutines run and re-arm at that instant) before the clock moves on.
+func (e *engine) now() time.Time {
+	if e.clk == nil {
+		return time.Now()
+	}
+	return e.clk.Now()
+}
+
 func (e *engine) advance(d int64) (ticked bool) {
 	target := e.clk.Now().UnixNano() + d
 	for {
@@ -431,7 +459,7 @@ func (e *engine) request(id string, post bool, path string, hdr bool) string {
 	}
 	on := lunar_messages.OnRequest{
 		ID: id, SequenceID: id, Method: method, Scheme: "https", URL: host + "/" + path, Path: "/" + path,
-		Headers: headers, Time: e.clk.Now(),
+		Headers: headers, Time: e.now(),
 	}
 	api := stream_types.NewRequestAPIStream(on, lunar_context.NewMemoryState[[]byte]())
 	acts := &streamconfig.StreamActions{Request: &streamconfig.RequestStream{}, Response: &streamconfig.ResponseStream{}}
@@ -439,7 +467,11 @@ func (e *engine) request(id string, post bool, path string, hdr bool) string {
 		return "err:execute"
 	}
 	v := "a"
+	e.rewrote = false
 	for _, a := range acts.Request.Actions {
+		if _, ok := a.(*actions.ModifyRequestAction); ok {
+			e.rewrote = true
+		}
 		if er, ok := a.(*actions.EarlyResponseAction); ok {
 			switch er.Status {
 			case 429:
@@ -461,7 +493,7 @@ func (e *engine) response(id string, post bool, path string) string {
 	}
 	on := lunar_messages.OnResponse{
 		ID: id, SequenceID: id, Method: method, URL: host + "/" + path, Status: 200,
-		Headers: map[string]string{}, Time: e.clk.Now(),
+		Headers: map[string]string{}, Time: e.now(),
 	}
 	api := stream_types.NewResponseAPIStream(on, lunar_context.NewMemoryState[[]byte]())
 	acts := &streamconfig.StreamActions{Request: &streamconfig.RequestStream{}, Response: &streamconfig.ResponseStream{}}
